@@ -408,7 +408,7 @@ func (w *world) colDocs(i *inst, name string) string {
 // awaitDelivered waits until every replication target of node i holds the documents of the collections it is
 // configured for (or the deadline passes); it returns false if something was not delivered.
 func (w *world) awaitDelivered(i *inst) bool {
-	deadline := time.Now().Add(6 * time.Second)
+	deadline := time.Now().Add(20 * time.Second)
 	reps, err := i.n.Peer.GetAllReplicators(w.ctx)
 	must(err)
 	cols, err := i.n.DB.GetCollections(w.ctx, client.CollectionFetchOptions{})
@@ -463,7 +463,7 @@ func (w *world) compareTargets(tag string) {
 			}
 		}
 	}
-	deadline := time.Now().Add(6 * time.Second)
+	deadline := time.Now().Add(20 * time.Second)
 	for _, name := range []string{"X", "Y"} {
 		for {
 			a, b := w.targetState(w.real, name), w.targetState(w.twin, name)
